@@ -1,6 +1,7 @@
 package c20
 
 import (
+	"fmt"
 	"os"
 	"strings"
 
@@ -49,10 +50,10 @@ type BCase struct {
 	RW     int `json:"rw"`
 	RH     int `json:"rh"`
 	Orient int `json:"orient"`
-	// LateView: SetView happens only at a "setview" step (widgets are added to a
-	// layout that has no view yet); otherwise before the first step
-	LateView bool  `json:"late_view,omitempty"`
-	Ops      []BOp `json:"ops"`
+	// ViewAt: SetView(parent) happens before step ViewAt (after the last step if
+	// there are fewer); before that widgets are added to a layout without a view
+	ViewAt int   `json:"view_at,omitempty"`
+	Ops    []BOp `json:"ops"`
 }
 
 // ---- recording widgets
@@ -270,9 +271,10 @@ func (r *bRun) checkBox(b *box, label string, aw, ah, ox, oy int, known *error) 
 		avail, crossAvail = ah, aw
 	}
 	obs := make([]kidObs, 0, len(b.kids))
-	prevEnd, prevName := -1, ""
+	prevEnd := -1
+	var prevE *entry
 	var rects []rect
-	var names []string
+	var owners []*entry
 	stale := false
 	for _, e := range b.kids {
 		vp, ok := e.view().(*views.ViewPort)
@@ -329,16 +331,16 @@ func (r *bRun) checkBox(b *box, label string, aw, ah, ox, oy int, known *error) 
 			s, t = y1, y2
 		}
 		if s <= prevEnd {
-			return errf("%s: %s starts at %d along the axis but %s, placed before it, ends at %d (order / disjointness)", label, e.name(), s, prevName, prevEnd)
+			return errf("%s: %s starts at %d along the axis but %s, placed before it, ends at %d (order / disjointness)", label, e.name(), s, prevE.name(), prevEnd)
 		}
-		prevEnd, prevName = t, e.name()
+		prevEnd, prevE = t, e
 		for j, o := range rects {
 			if x1 <= o.x2 && o.x1 <= x2 && y1 <= o.y2 && o.y1 <= y2 {
-				return errf("%s: %s (%d,%d)-(%d,%d) overlaps %s (%d,%d)-(%d,%d)", label, e.name(), x1, y1, x2, y2, names[j], o.x1, o.y1, o.x2, o.y2)
+				return errf("%s: %s (%d,%d)-(%d,%d) overlaps %s (%d,%d)-(%d,%d)", label, e.name(), x1, y1, x2, y2, owners[j].name(), o.x1, o.y1, o.x2, o.y2)
 			}
 		}
 		rects = append(rects, rect{x1, y1, x2, y2})
-		names = append(names, e.name())
+		owners = append(owners, e)
 		if e.nb != nil {
 			r.fillOK = append(r.fillOK, rect{ox + x1, oy + y1, ox + x2, oy + y2})
 			if err := r.checkBox(e.nb, "nested box", cw, ch, ox+x1, oy+y1, known); err != nil {
@@ -376,7 +378,7 @@ func (r *bRun) checkBox(b *box, label string, aw, ah, ox, oy int, known *error) 
 }
 
 // observe draws the top box and checks everything.
-func (r *bRun) observe(where string, known *error) error {
+func (r *bRun) observe(where fmt.Stringer, known *error) error {
 	if !r.viewSet {
 		return nil
 	}
@@ -439,24 +441,21 @@ func runB(c BCase) (bResult, error) {
 	r := &bRun{root: &recView{w: c.RW, h: c.RH}, seen: map[string]bool{}}
 	r.top = &box{bl: views.NewBoxLayout(orientOf(c.Orient)), orient: c.Orient & 1}
 	var known error
-	if !c.LateView {
+	setView := func() {
+		if len(r.top.kids) > 0 {
+			r.class("add-before-setview")
+		}
 		r.top.bl.SetView(r.root)
 		r.viewSet = true
 	}
 
 	for i, op := range c.Ops {
-		where := sprintf("step %d %s", i, describeB(op))
+		if !r.viewSet && i >= c.ViewAt {
+			setView()
+		}
+		where := bWhere{i, op}
 		b := r.boxOf(op.Box & 1)
 		switch op.Kind {
-		case "setview":
-			if r.viewSet {
-				continue
-			}
-			if len(r.top.kids) > 0 {
-				r.class("add-before-setview")
-			}
-			r.top.bl.SetView(r.root)
-			r.viewSet = true
 		case "add", "insert":
 			if b == nil || len(b.kids) >= maxKids || op.Kid == nil {
 				continue
@@ -574,8 +573,21 @@ func runB(c BCase) (bResult, error) {
 			return r.res, err
 		}
 	}
+	if !r.viewSet {
+		setView()
+		if err := r.observe(strWhere("SetView after the last step"), &known); err != nil {
+			return r.res, err
+		}
+	}
 	return r.res, known
 }
+
+type bWhere struct {
+	i  int
+	op BOp
+}
+
+func (w bWhere) String() string { return sprintf("step %d %s", w.i, describeB(w.op)) }
 
 func describeB(op BOp) string {
 	bx := "top"
@@ -690,16 +702,17 @@ func genBCase(t *rapid.T) BCase {
 		case k < 90:
 			kd := Kid{PW: pref.Draw(t, "npw"), PH: pref.Draw(t, "nph")}
 			return BOp{Kind: "prefsize", Box: bx, Idx: rapid.IntRange(0, maxKids-1).Draw(t, "pidx"), Kid: &kd, Via: rapid.SampledFrom([]string{"event", "event", "resize"}).Draw(t, "via")}
-		case k < 93:
+		case k < 95:
 			return BOp{Kind: "resize"}
-		case k < 96:
-			return BOp{Kind: "setview"}
 		default:
 			return BOp{Kind: "draw"}
 		}
 	})
 	c := BCase{RW: rootSize.Draw(t, "rw"), RH: rootSize.Draw(t, "rh"), Orient: orient.Draw(t, "orient")}
-	c.LateView = rapid.IntRange(0, 4).Draw(t, "late") == 0
-	c.Ops = rapid.SliceOfN(op, 1, pbt.Pick(25, 50)).Draw(t, "ops")
+	if rapid.IntRange(0, 4).Draw(t, "late") == 0 {
+		c.ViewAt = rapid.IntRange(1, 6).Draw(t, "viewAt")
+	}
+	max := pbt.Pick(25, 50)
+	c.Ops = rapid.SliceOfN(op, rapid.IntRange(1, max).Draw(t, "minlen"), max).Draw(t, "ops")
 	return c
 }
